@@ -288,6 +288,33 @@ fn layer_b_case(ty: &str, seq: &[u8]) -> (Vec<Failure>, bool) {
         check("group-by", "SELECT a, COUNT(*) FROM t GROUP BY a", groups, Some(vals.len()));
         check("distinct", "SELECT DISTINCT a FROM t", groups, None);
     }
+    // two columns: rows (v, v) - equal columns in one row - and, for two values, the swapped pairs (v0, v1), (v1, v0)
+    if !vals.is_empty() {
+        check("distinct-two-equal-columns", "SELECT DISTINCT a, b FROM t", groups, None);
+        check("group-by-two-equal-columns", "SELECT a, b, COUNT(*) FROM t GROUP BY a, b", groups, Some(vals.len()));
+    }
+    if vals.len() == 2 {
+        let l0 = format!("k0 {} {} {}", vals[0], vals[1], vals[1]);
+        let l1 = format!("k1 {} {} {}", vals[1], vals[0], vals[0]);
+        let (c0, c1) = (ref_class(ty, vals[0]), ref_class(ty, vals[1]));
+        // (v0, v1) and (v1, v0) are the same row only when v0 and v1 fall in one class (or both are NULL)
+        let expected = if c0 == c1 { 1 } else { 2 };
+        for (name, stmt) in [("distinct-swapped-pair", "SELECT DISTINCT a, b FROM t"), ("group-by-swapped-pair", "SELECT a, b, COUNT(*) FROM t GROUP BY a, b"), ("distinct-swapped-pair-agg", "SELECT DISTINCT MIN(a), MAX(b) FROM t GROUP BY k")] {
+            let st = sut::parse(stmt).expect(stmt);
+            let o = sut::run_batch(&tables, &st, &[&l0, &l1]);
+            let got = count_rows(&o);
+            if got != Ok(expected) {
+                out.push(fail(
+                    format!("consumer:{}:{}:{}", name, ty, kinds.join(",")),
+                    format!("{} over the rows ({}, {}) and ({}, {}): expected {} rows, got {:?}", name, vals[0], vals[1], vals[1], vals[0], expected, got),
+                    json!({"layer": "B", "type": ty, "seq": seq, "tokens": vals, "statement": stmt}),
+                    json!(expected),
+                    sut::outcome_json(&o, |t| t.to_json()),
+                    seq.len() as u64 * 1000 + 9,
+                ));
+            }
+        }
+    }
     // COUNT(DISTINCT a): one row whose value is ncls
     if !vals.is_empty() {
         let st = sut::parse("SELECT COUNT(*), COUNT(DISTINCT a) FROM t").unwrap();
